@@ -59,6 +59,13 @@ pub struct Case {
     pub modules: Vec<(u64, u32, String)>,
     pub unloaded: Vec<(u64, u32, String)>,
     pub mems: Vec<(u64, u64)>,
+    /// C15 only: amd64 register file of the exception context (rax rcx rdx rbx rsp rbp rsi rdi r8..r15 rip;
+    /// rsp / rip are taken from the exception's sp / ip), raw memory regions, memory-info entries
+    pub exc_regs: Option<Vec<u64>>,
+    pub raw_mems: Vec<(u64, Vec<u8>)>,
+    pub mem_infos: Vec<(u64, u64, u32)>,
+    pub cpuinfo: Vec<u8>,
+    pub lsb: Vec<u8>,
 }
 
 pub const ANCHOR_WORD: u64 = 0x7000_0100;
@@ -221,6 +228,32 @@ pub fn context_bytes(arch: u16, ip: u64, sp: u64) -> Option<Vec<u8>> {
     })
 }
 
+pub fn amd64_context_regs(regs: &[u64], ip: u64, sp: u64) -> Vec<u8> {
+    let z = zeroed::<md::CONTEXT_AMD64>();
+    let mut c: md::CONTEXT_AMD64 = z.pread_with(0, LE).unwrap();
+    c.context_flags = 0x10001f;
+    c.rax = regs[0];
+    c.rcx = regs[1];
+    c.rdx = regs[2];
+    c.rbx = regs[3];
+    c.rsp = sp;
+    c.rbp = regs[5];
+    c.rsi = regs[6];
+    c.rdi = regs[7];
+    c.r8 = regs[8];
+    c.r9 = regs[9];
+    c.r10 = regs[10];
+    c.r11 = regs[11];
+    c.r12 = regs[12];
+    c.r13 = regs[13];
+    c.r14 = regs[14];
+    c.r15 = regs[15];
+    c.rip = ip;
+    let mut b = z.clone();
+    b.pwrite_with(c, 0, LE).unwrap();
+    b
+}
+
 /// Bytes of a context section of the requested kind (None = no context: null location).
 fn context_of_kind(arch: u16, kind: u64, ip: u64, sp: u64) -> Option<Vec<u8>> {
     match kind {
@@ -313,7 +346,11 @@ pub fn build_dump(c: &Case) -> Vec<u8> {
         ex.exception_record.exception_information[0] = x.info[0];
         ex.exception_record.exception_information[1] = x.info[1];
         ex.exception_record.exception_information[2] = x.info[2];
-        if let Some(b) = context_of_kind(c.arch, x.ctxkind, x.ip, x.sp) {
+        let exc_bytes = match (&c.exc_regs, c.arch, x.ctxkind) {
+            (Some(r), 9, 1) => Some(amd64_context_regs(r, x.ip, x.sp)),
+            _ => context_of_kind(c.arch, x.ctxkind, x.ip, x.sp),
+        };
+        if let Some(b) = exc_bytes {
             let cs = mk_ctx_section(b);
             let (sz, off) = (cs.file_size(), cs.file_offset());
             dump = dump.add(cs);
@@ -326,6 +363,12 @@ pub fn build_dump(c: &Case) -> Vec<u8> {
     }
     for m in mems {
         dump = dump.add_memory(m);
+    }
+    for (base, bytes) in &c.raw_mems {
+        dump = dump.add_memory(Memory::with_section(Section::with_endian(e).append_bytes(bytes), *base));
+    }
+    for &(base, size, prot) in &c.mem_infos {
+        dump = dump.add_memory_info(MemoryInfo::new(e, base, base, prot, size, 0x1000, prot, 0x20000));
     }
 
     if let Some((validity, dt, rt)) = c.bp {
@@ -346,6 +389,12 @@ pub fn build_dump(c: &Case) -> Vec<u8> {
             _ => format!("Name:\tx\nPid:\tx{}\nPPid:\t1\n", pid),
         };
         dump = dump.set_linux_proc_status(text.as_bytes());
+    }
+    if !c.cpuinfo.is_empty() {
+        dump = dump.set_linux_cpu_info(&c.cpuinfo);
+    }
+    if !c.lsb.is_empty() {
+        dump = dump.set_linux_lsb_release(&c.lsb);
     }
     dump = dump.add_system_info(SystemInfo::new(e).set_processor_architecture(c.arch).set_platform_id(c.platform));
     for (base, size, name) in &c.modules {
